@@ -30,10 +30,10 @@ CHECKS['C03'] = dict(
     note='Bounded depth (quick 4, thorough 6 or budget); exact counter values are not compared, only what decides a verdict.')
 CHECKS['C16'] = dict(
     category='model_checking', design_ref='DESIGN.md §3 C16',
-    technique='explicit-state BFS over operation histories on the real rib.RIB with the post-change hook folded into a mirror',
+    technique='explicit-state BFS over operation histories on the real rib.RIB with the post-change hook folded into a mirror; resolved-entry hook: the same histories under the controlled runtime with every delivered snapshot compared with the model',
     text=('Every history of a 22-letter alphabet up to the depth bound, for hook registration before and after creation of the network instance: folding the notifications '
           '(ADD sets, DELETE removes, nil DELETE is a no-op) must reproduce RIBContents() in every network instance after every step, for Modify-style calls, held-operation resolution and Flush.'),
-    note='Post-change hook only at this tier; the resolved-entry hook (goroutine) is exercised by the scheduler-based tier when built. Bounded depth.')
+    note='Resolved-entry hook tier: 16-letter alphabet from the empty RIB and two start states under the controlled runtime (the hook runs in its own goroutine, default schedule); each snapshot must equal the model at its acknowledgement and is mutated afterwards to show it is private. Post-change searches are repeated under descending map order. Bounded depth.')
 ENGINES.append({'name': 'input-enumeration', 'path': 'harness/flushenum, harness/getenum, harness/malformed', 'serves_properties': ['C07', 'C08', 'C12'],
      'kind_free_text': 'bounded-exhaustive enumeration of structured inputs (catalogue x request x decision-table cell; builder-call subsets; mutation closure) executed on fresh real servers against a reference decision table / model'})
 ENGINES[0]['serves_properties'] += ['C04', 'C05', 'C06', 'C07']
@@ -67,7 +67,7 @@ CHECKS['C07'] = dict(
 CHECKS['C08'] = dict(
     category='model_checking', engine='input-enumeration', design_ref='DESIGN.md §3 C08',
     technique='exhaustive enumeration of RIB catalogue x Flush target x election decision table on the real Server.Flush against the specification table',
-    text=('14 RIBs (shared / missing / circular / self backups, cross-instance references in both directions, held operations) x 6 targets x 8 (thorough 11) election fields x 3 (thorough 6) learnt ids on a fresh real server: '
+    text=('14 RIBs (shared / missing / circular / self backups, cross-instance references in both directions, held operations) x 6 targets x 8 (thorough 11) election fields x 3 (thorough 6) learnt ids x both iteration orders of the maps of the RIB on a fresh real server: '
           'a malformed or unauthorised request gets one of the codes the specification assigns to the malformations that apply and changes nothing; an authorised one empties exactly the named instances, answers OK, '
           'and leaves deletion protection equal to the referrers that remain (checked on counters and behaviourally by re-installing groups that remaining entries still point at).'),
     note='Where specification and proto comments allow two answers (override with no id learnt; coinciding malformations) the oracle accepts the set.')
@@ -75,7 +75,7 @@ CHECKS['C12'] = dict(
     category='model_checking', engine='input-enumeration', design_ref='DESIGN.md §3 C12',
     technique='bounded-exhaustive mutation closure (protoreflect walk x operator set; singles, thorough: pairs) of valid AFT operations / Get / Flush requests in 3 pre-states on the real handlers',
     text=('Every single structured mutation (thorough: every pair) of one valid message per entry kind and operation type — clear/empty sub-message, other oneof arm, undefined/zero/last enum, boundary integers, malformed strings, '
-          'empty/duplicated lists — applied in three pre-states (empty, chain installed and referenced, held operations) through the real doModify, Get (under the controlled runtime so a goroutine panic is a verdict) and Flush: '
+          'empty/duplicated lists — applied in three pre-states (empty, chain installed and referenced, held operations) and under both iteration orders of the maps of the code (ordered-map seam) through the real doModify, Get (under the controlled runtime so a goroutine panic is a verdict) and Flush: '
           'no panic, the call returns, a rejected request leaves RIB / held set / counters identical, and the invalid classes the property lists are rejected.'),
     note='Byte-level fuzzing of the wire format is a different family and not attempted; for a DELETE naming a syntactically invalid key that aliases nothing either verdict is accepted.')
 ENGINES.append({'name': 'schedule-dfs', 'path': 'rt/ (controlled scheduler + shims), cmd/vinstr (overlay instrumenter), mc/dfs.go', 'serves_properties': ['C05', 'C11'],
@@ -105,7 +105,7 @@ CHECKS['C10'] = dict(
     technique='explicit-state BFS over fault histories (half-close / cancel / transport failure at every message boundary and mid-request; Get abandoned after k responses) on real streams; liveness probe decided by the scheduler\'s exact deadlock verdict',
     text=('Every history to depth 6 (thorough 7, 2 sessions) of session steps, the three disconnect modes, requests cut immediately after they were sent, and Gets abandoned after 0..2 (3) responses in two modes, from the empty server and from a server holding a chain of entries. '
           'After every fault: installed entries and election id identical, the session removed, and a fresh session must negotiate, win the election, program an entry, Get it and Flush — run as a thread; "blocked forever" is the scheduler\'s verdict, not a timeout.'),
-    note='Stream contract of wire/ (DESIGN §2.4), not HTTP/2; faults inside a request are explored under the default schedule only. distinct_nontrivial counts histories containing at least one fault letter.')
+    note='Stream contract of wire/ (DESIGN §2.4), not HTTP/2. Schedule tier: a session that sent parameters, election id and a 4-operation batch back to back is cut (cancel / transport failure) under every schedule within deviation bound 2 (thorough 3) of the server\'s goroutines, then the same probe. distinct_nontrivial counts histories containing at least one fault letter plus the schedule-tier executions.')
 ENGINES[-2]['serves_properties'] += ['C13', 'C14']
 CHECKS['C13'] = dict(
     category='model_checking', engine='schedule-dfs', design_ref='DESIGN.md §3 C13',
@@ -130,7 +130,7 @@ CHECKS['C15'] = dict(
     text=('The catalogue is every reference-closed choice of one payload variant (or absence) per key of a universe over two network instances (quick 108 states, thorough larger universe). For every ordered pair (intended, target) '
           '(x three variants of a network instance only the target has) the real reconciler\'s operations are applied to the real target RIB in the documented order with reference checking on: each must succeed individually and at once, '
           'the target must end up equal to the intended RIB in every network instance, equal RIBs yield no operations, ids are distinct and count up from the base.'),
-    note='Emission order inside a category is Go map order of the run (any order must work); local RIB targets only (the remote target is the same diff).')
+    note='Emission order inside a category follows map order: every pair is run under ascending and descending order of the instrumented maps (other permutations are not enumerated); local RIB targets only (the remote target is the same diff).')
 CHECKS['C17'] = dict(
     category='model_checking', engine='input-enumeration', design_ref='DESIGN.md §3 C17',
     technique='bounded-exhaustive enumeration of (result lists, wants, option subsets), Get responses x wants, client errors x wanted statuses x options on the real chk helpers with a fatal-capturing testing.TB, against a direct definition of "present"',
